@@ -629,7 +629,7 @@ pub fn server_case_from_bytes(data: &[u8]) -> Option<ServerCase> {
 server_prop!(C15, "C15", Which::C15, 200_000, 3_000_000, 4,
     "server configuration (deny/allow lists over a pool of nested/overlapping v4/v6/mapped subnets mixed with generated subnets: few bases with host bits set, any prefix length, any order; both actions, require-nts, accepted-version mask) × client address (boundary addresses of the pool, mapped forms, random, and for half of the requests an address on the prefix boundary of a configured subnet: one bit around the boundary flipped, host bits all-0/all-1/random) × request (reference-built plain/NTS v3/v4/v5 polls, non-client modes, malformed, mutated, raw bytes); oracle = decision table of the statement with reference subnet arithmetic and reference decoding of the answer; non-trivial = the address is on exactly one of the lists or a deny list is configured");
 server_prop!(C16, "C16", Which::C16, 60_000, 3_000_000, 3,
-    "all request kinds of the server world: (a) Server::handle with the daemon's request-sized buffer; (b) one case in eight additionally end to end: the same datagrams are sent over loopback UDP to the daemon's real ServerTask (timestamped socket, default allow-all policy, NTPv3-5 accepted), plus, for every datagram whose unrestricted answer (library twin with a 4 KiB buffer) would outgrow it, variants lengthened to end 1..4 bytes short of that answer; every reply is matched to its datagram by the echoed identifier; oracle = reply length ≤ request length; non-trivial = an answered request longer than the bare 48-byte header");
+    "all request kinds of the server world: (a) Server::handle with the daemon's request-sized buffer; (b) one case in eight additionally end to end: the same datagrams are sent over loopback UDP to the daemon's real ServerTask (timestamped socket; the loopback client is served in half of the cases and otherwise on the deny list, outside the allow list or refused for lack of NTS, all with action deny; NTPv3-5 accepted), plus, for every datagram whose unrestricted answer (library twin with a 4 KiB buffer) would outgrow it, variants lengthened to end 1..4 bytes short of that answer; every reply is matched to its datagram by the echoed identifier; oracle = reply length ≤ request length; non-trivial = an answered request longer than the bare 48-byte header");
 server_prop!(C17, "C17", Which::C17, 200_000, 3_000_000, 3,
     "differential: same datagram handled with a request-sized buffer and with a 4 KiB buffer on twin servers; oracle = large answers ⇒ small answers with the same kind, no InternalError statistics entry; non-trivial = answered request with ≥1 extension field");
 server_prop!(C18, "C18", Which::C18, 200_000, 3_000_000, 3,
@@ -664,13 +664,17 @@ pub fn udp_exchange(case: &ServerCase) -> Result<(usize, usize, usize), Failure>
     let port = 20000 + (std::process::id() % 20000) as u16;
     let listen: std::net::SocketAddr = ([127, 0, 0, 1], port).into();
     crate::rt::run_real(async move {
+        // policy for the (loopback) client: served, on a deny list, outside the allow list, or NTS required
+        // (the last three answered with DENY kisses, whose size the protocol layer does not cap by itself)
+        let policy = (case.key_seed / 8) % 6;
+        let everyone: Vec<ntp_proto::IpSubnet> = vec!["0.0.0.0/0".parse().unwrap(), "::/0".parse().unwrap()];
         let dcfg = DaemonServerConfig {
             listen,
-            denylist: FilterList { filter: vec![], action: FilterAction::Ignore },
-            allowlist: FilterList { filter: vec!["0.0.0.0/0".parse().unwrap(), "::/0".parse().unwrap()], action: FilterAction::Ignore },
+            denylist: FilterList { filter: if policy == 3 { vec!["127.0.0.0/8".parse().unwrap()] } else { vec![] }, action: FilterAction::Deny },
+            allowlist: FilterList { filter: if policy == 4 { vec!["10.0.0.0/8".parse().unwrap()] } else { everyone }, action: FilterAction::Deny },
             rate_limiting_cache_size: 0,
             rate_limiting_cutoff: Duration::ZERO,
-            require_nts: None,
+            require_nts: if policy == 5 { Some(FilterAction::Deny) } else { None },
             accept_ntp_versions: versions(7),
         };
         let provider = KeySetProvider::dangerous_new_deterministic(case.history as usize);
